@@ -11,7 +11,8 @@
 From CM Require Export Model.PySem Model.Rewrites.
 
 Inductive kernel := KCombineSW | KCombineInst | KInvert | KGenerator | KSetLit | KHasattr
-                  | KEmptySeq | KEmptySeqTest (* the expression is the test of an `if` *) | KIdentity.
+                  | KEmptySeq | KEmptySeqTest (* the expression is the test of an `if` *) | KIdentity
+                  | KStrConcat (* not a refactoring: no C08 law, only model = codemod and C01/C02/C07 facts *).
 
 Definition under_binder {A} (rho : env) (x : N) (it : expr) (k : env -> list A) : list A :=
   match eval rho it with
